@@ -4,8 +4,8 @@ import (
 	"fmt"
 	"runtime"
 	"sort"
-	"sync"
 	"strings"
+	"sync"
 	"time"
 
 	"github.com/iden3/go-schema-processor/v2/merklize"
